@@ -7,7 +7,9 @@ LEVEL = "proof"
 RULE = ("generated Maven universes (5-12 artifacts in 3 groups, 1-4 versions each, soft versions, hard ranges, "
         "dependencyManagement, exclusions incl. *:* g:* *:a, scopes, optional, classifiers, types incl. war/ear/rar, "
         "diamonds, cycles, recurring exclusion texts, multi-range unions in any order with overlapping/adjacent/single-version "
-        "sub-ranges), every version of every artifact as root, single registry; a case is non-trivial when the "
+        "sub-ranges), every version of every artifact as root, single registry; plus, per universe, two SEQUENCES of 2-4 roots "
+        "resolved on one resolver (sequentially, then from 4 goroutines) whose results must equal a fresh resolver's; "
+        "a case is non-trivial when the "
         "resolution returns a graph with at least 4 nodes")
 TRUSTED = [
     "Coq 8.16.1 kernel; vm_compute for the refuted witnesses and the satisfiability examples",
@@ -880,7 +882,8 @@ def run_universes(ctx, universes, label):
     done = set()
     for v in ctx.violations:
         inp = v.get("input")
-        if not isinstance(inp, dict) or "clause" not in inp or inp["clause"] in done or "minimal" in inp or len(done) >= 4:
+        if not isinstance(inp, dict) or inp.get("kind") != "maven_rec" or "clause" not in inp or inp["clause"] in done \
+                or "minimal" in inp or len(done) >= 4:
             continue
         done.add(inp["clause"])
         try:
@@ -939,6 +942,140 @@ def shrink(ctx, u, root, clause, budget=6000):
             break
         cur = nxt
     return cur
+
+
+def pick_sequences(rng, u):
+    """root sequences for one universe: 2-4 roots resolved one after the other on ONE resolver; repetitions,
+    a root with dependencyManagement first, roots from the upstream half (they reach most of the universe)"""
+    roots = [(nm, v) for nm, vl in u for v, _ in vl]
+    managing = [(nm, v) for nm, vl in u for v, deps in vl
+                if any(tdict(d[2]).get(K_ORIGIN) == b"management" for d in deps)]
+    upstream = roots[:max(2, len(roots) // 2)]
+    seqs = []
+    for _ in range(2):
+        n = rng.randrange(2, 5)
+        r = rng.random()
+        pool = upstream if rng.random() < 0.6 else roots
+        if managing and r < 0.5:
+            seq = [rng.choice(managing)] + [rng.choice(pool) for _ in range(n - 1)]
+        elif r < 0.7 and len(roots) >= 2:
+            a, b = rng.sample(roots, 2)
+            seq = [a, b, a] + ([b] if n == 4 else [])
+        else:
+            seq = [rng.choice(pool) for _ in range(n)]
+        seqs.append(seq)
+    return seqs
+
+
+def seq_failures(u, seq, line):
+    """what is wrong with one maven_seq answer: list of (index or None, what, observed, required)"""
+    if line is None or line.startswith('("crash'):
+        return [(None, "the process died while one resolver resolved a sequence of roots (sequentially, then from "
+                 "4 goroutines)", line, "a value or an error for every root")]
+    if line.startswith('("panic"'):
+        return [(None, "maven resolver panicked in a sequence of resolutions on one resolver", line, None)]
+    per_root, conc = parse_sx(line)
+    out = []
+    for i, (ref, sq, table, passes) in enumerate(per_root):
+        if norm_obs(sx(sq)) != norm_obs(sx(ref)):
+            out.append((i, "a resolver that already resolved other roots returns a different result than a fresh resolver "
+                        "for the same root: state is kept between Resolve calls", sx(sq), sx(ref)))
+    for i, o in conc:
+        out.append((i, "concurrent resolutions on one resolver return a result that differs from a fresh resolver's",
+                    sx(o), sx(per_root[i][0])))
+    return out
+
+
+def fail_kind(f):
+    idx, what = f[0], f[1]
+    if idx is None:
+        return "crash"
+    return "seq" if what.startswith("a resolver that already") else "conc"
+
+
+def shrink_seq(ctx, u, seq, kind, budget=4000):
+    """greedy minimisation of (universe, root sequence) while a failure of the same kind (sequential state,
+    concurrent difference, process death) is still there; sequential failures are deterministic"""
+    def cands(u, seq):
+        out = []
+        for j in range(len(seq)):
+            if len(seq) > 1:
+                out.append((u, seq[:j] + seq[j + 1:]))
+        prot = set(seq)
+        for i, (nm, vl) in enumerate(u):
+            if all(r[0] != nm for r in prot):
+                out.append((u[:i] + u[i + 1:], seq))
+            for j, (v, deps) in enumerate(vl):
+                if (nm, v) not in prot:
+                    out.append((u[:i] + [[nm, vl[:j] + vl[j + 1:]]] + u[i + 1:], seq))
+                for k, d in enumerate(deps):
+                    nd = deps[:k] + deps[k + 1:]
+                    out.append((u[:i] + [[nm, vl[:j] + [[v, nd]] + vl[j + 1:]]] + u[i + 1:], seq))
+                    for a in range(len(d[2])):
+                        d2 = [d[0], d[1], d[2][:a] + d[2][a + 1:]]
+                        nd = deps[:k] + [d2] + deps[k + 1:]
+                        out.append((u[:i] + [[nm, vl[:j] + [[v, nd]] + vl[j + 1:]]] + u[i + 1:], seq))
+        return out
+    cur = (u, seq)
+    while budget > 0:
+        cs = cands(*cur)
+        if not cs:
+            break
+        outs = ctx.impl_surviving("maven_seq", [sx([c[0], [list(r) for r in c[1]]]) for c in cs])
+        ctx.evaluations -= len(cs)
+        budget -= len(cs)
+        nxt = None
+        for c, line in zip(cs, outs):
+            if any(fail_kind(f) == kind for f in seq_failures(c[0], c[1], line)):
+                nxt = c
+                break
+        if nxt is None:
+            break
+        cur = nxt
+    return cur
+
+
+def run_sequences(ctx, cases, label="sequences"):
+    """cases: list of (universe, [root...]).  One resolver per case resolves the roots in order; every result must be
+    the result of a fresh resolver for that root alone (which the correspondence ties to the model), and the
+    clauses of C07 are evaluated on it for that root alone."""
+    args = [sx([u, [list(r) for r in seq]]) for u, seq in cases]
+    outs = ctx.impl_surviving("maven_seq", args)
+    allfails = [seq_failures(u, seq, line) for (u, seq), line in zip(cases, outs)]
+    # the case to minimise: the first with a (deterministic) sequential failure, else the first failing one
+    pick = next((i for i, fs in enumerate(allfails) if any(fail_kind(f) == "seq" for f in fs)),
+                next((i for i, fs in enumerate(allfails) if fs), None))
+    for ci, ((u, seq), arg, line, fails) in enumerate(zip(cases, args, outs, allfails)):
+        ctx.count("seq:cases")
+        ctx.count("seq:roots", len(seq))
+        inp = {"kind": "maven_seq", "arg": arg, "roots": lib.jsonable([list(r) for r in seq])}
+        if fails and ci == pick and not ctx.extra.get("seq_minimised"):
+            ctx.extra["seq_minimised"] = True
+            kinds = [fail_kind(f) for f in fails]
+            kind = "seq" if "seq" in kinds else kinds[0]
+            try:
+                mu, ms = shrink_seq(ctx, u, list(seq), kind)
+                inp["minimal"] = sx([mu, [list(r) for r in ms]])
+                inp["minimal_roots"] = lib.jsonable([list(r) for r in ms])
+                inp["minimal_result"] = ctx.impl_surviving("maven_seq", [inp["minimal"]])[0][:3000]
+            except Exception as e:
+                inp["minimal_error"] = repr(e)
+        for idx, what, observed, required in fails:
+            ctx.violation(what, dict(inp, index=idx), observed=observed, required=required)
+        if fails and line and line.startswith("(("):
+            # which clause of C07 the shared resolver's graph breaks, for that root alone
+            per_root, _ = parse_sx(line)
+            for i, (ref, sq, table, passes) in enumerate(per_root):
+                if norm_obs(sx(sq)) == norm_obs(sx(ref)):
+                    continue
+                for h in oracle(u, seq[i], sq, table, passes):
+                    if h.known:
+                        continue
+                    ctx.count("seq:oracle_hit:" + h.clause)
+                    ctx.violation(h.what + " (root %d of a sequence resolved on one resolver)" % i,
+                                  dict(inp, index=i, clause=h.clause),
+                                  observed={"detail": lib.jsonable(h.detail), "graph": sx(sq)},
+                                  required="clause %s of C07 for this root alone" % h.clause)
 
 
 def classify_stale(ctx, pending):
@@ -1006,6 +1143,9 @@ def run(ctx):
             if isinstance(inp, dict) and inp.get("kind") == "maven_rec":
                 u, root = parse_sx(inp["arg"])
                 run_universes(ctx, [u], "replay")
+            if isinstance(inp, dict) and inp.get("kind") == "maven_seq":
+                u, seq = parse_sx(inp.get("minimal") or inp["arg"])
+                run_sequences(ctx, [(u, [tuple(r) for r in seq])], "replay")
     check_known(ctx)
     tds = testdata_universes(ctx)
     ctx.count("testdata_universes", len(tds))
@@ -1017,6 +1157,7 @@ def run(ctx):
     while done < n:
         us = [gen_universe(rng) for _ in range(min(batch, n - done))]
         run_universes(ctx, us, "universes")
+        run_sequences(ctx, [(u, seq) for u in us for seq in pick_sequences(rng, u)])
         done += len(us)
     # violations that carry a minimised universe go first in the replay
     ctx.violations.sort(key=lambda v: 0 if isinstance(v.get("input"), dict) and "minimal" in v["input"] else 1)
